@@ -456,6 +456,13 @@ def run_harness(ctx, cases, bulk_n, keep, net):
     if net:
         env["VERIF_C19_NET"] = "1"
     rc, out = ctx.go_test(PKG, ov, "^TestVerifC19", env=env, timeout=1500)
+    for attempt in (2, 3):
+        if rc == 0:
+            break
+        # the code under test may end the process (log.Fatalf when the join target cannot be reached); a tree
+        # that leaves requests in flight can make that happen between scenarios: run the harness again
+        ctx.log("C19 harness ended with rc=%s; attempt %d" % (rc, attempt))
+        rc, out = ctx.go_test(PKG, ov, "^TestVerifC19", env=env, timeout=1500)
     if rc != 0:
         raise vlib.Inconclusive("C19 harness failed (rc=%s):\n%s" % (rc, out[-4000:]))
     try:
